@@ -3,11 +3,15 @@
 //!   avsim --property C02 --tier quick|thorough [--seed N] [--scale F]
 //!   avsim --replay <file>
 //!   avsim --trace-hash --property C02 --runs N [--seed N]     (determinism selftest)
+mod durable;
 mod envelope;
 mod exact;
 mod exec;
 mod framework;
 mod gen;
+mod hist;
+mod htypes;
+mod p2model;
 mod props_r;
 mod registry;
 mod rng;
@@ -193,6 +197,13 @@ fn check_property(prop: &str, tier: Tier, seed: u64, scale: f64) -> i32 {
                 .entry(f.viol.class.clone())
                 .or_insert_with(|| (name.clone(), *i, f.trace.clone(), f.viol.clone(), 0));
             e.4 += 1;
+            // start minimisation from the smallest failing trace of the class (ties: lowest run)
+            if f.trace.to_string().len() < e.2.to_string().len() {
+                e.0 = name.clone();
+                e.1 = *i;
+                e.2 = f.trace.clone();
+                e.3 = f.viol.clone();
+            }
         }
     }
     for (name, v, trace) in &extra_viol {
@@ -215,8 +226,11 @@ fn check_property(prop: &str, tier: Tier, seed: u64, scale: f64) -> i32 {
     let mut reported = 0;
     for (class, (scen, run, trace, viol, count)) in &by_class {
         // known finding?
-        if let Some(k) = known.iter().find(|k| k.property == prop && k.status == "known" && class.starts_with(&k.class_prefix)) {
-            *known_hit.entry(k.class_prefix.clone()).or_insert(0) += count;
+        if let Some(k) = known
+            .iter()
+            .find(|k| k.property == prop && k.status == "known" && k.class_prefixes.iter().any(|p| class.starts_with(p.as_str())))
+        {
+            *known_hit.entry(k.id.clone()).or_insert(0) += count;
             continue;
         }
         violations += 1;
@@ -227,7 +241,7 @@ fn check_property(prop: &str, tier: Tier, seed: u64, scale: f64) -> i32 {
         // minimise and write the replay file
         let plan = plans.iter().find(|p| p.scenario.name() == scen);
         let (min_trace, min_viol, tries) = match plan {
-            Some(p) => minimise(p.scenario.as_ref(), trace.clone(), class, 3000),
+            Some(p) => p.scenario.minimise(trace, class, 3000),
             None => (trace.clone(), viol.clone(), 0),
         };
         let safe: String = class.chars().map(|c| if c.is_ascii_alphanumeric() { c } else { '_' }).collect();
@@ -270,11 +284,11 @@ fn check_property(prop: &str, tier: Tier, seed: u64, scale: f64) -> i32 {
     // every listed known finding of this property prints its line
     for k in known.iter().filter(|k| k.property == prop && k.status == "known") {
         println!(
-            "KNOWN-FINDING: property={} {} (class {}; reproduced in {} runs of this batch)",
+            "KNOWN-FINDING: property={} {} {} (reproduced in {} runs of this batch)",
             prop,
+            k.id,
             k.what,
-            k.class_prefix,
-            known_hit.get(&k.class_prefix).copied().unwrap_or(0)
+            known_hit.get(&k.id).copied().unwrap_or(0)
         );
     }
 
